@@ -274,6 +274,16 @@ pub fn run_c02(tier: &str, seed: u64, model: &Model, corpus: Vec<Case>) -> Repor
         }
     }
     run_section(&mut rep, model, "codes", cases, &impl_revcomp, &judge_revcomp);
+    // the same code decoded for one k after another (and back down): an answer remembered from the previous call must not leak
+    // into the next one (the sections above walk the codes of one k before moving to the next k)
+    let mut cases = Vec::new();
+    for x in [0u64, 1, 2, 3, 6, 27, 57, 228, 4095, 65_535] {
+        let kmin = (1..=31u64).find(|k| *k == 32 || x < (1u64 << (2 * k))).unwrap_or(31);
+        for k in (kmin..=31).chain((kmin..=31).rev()) {
+            cases.push(Case::new("revcomp", &[k, x], &[], "code-outer"));
+        }
+    }
+    run_section(&mut rep, model, "codes-k-inner", cases, &impl_revcomp, &judge_revcomp);
     let mut cases = Vec::new();
     let n = if tier == "thorough" { 60_000 } else { 4_000 };
     for _ in 0..n {
